@@ -64,6 +64,7 @@ def gen(r, tier, i):
     # (the last tick of a call is then cut short, and the next call starts a new tick)
     runs = [r.choice([0.5, 1, 1.5, 2.5, 3, 4]) for _ in range(r.randint(2, 4))] if r.random() < 0.35 else None
     return {'events': events, 'share': share, 'ts': r.choice([0.5, 1, 2]), 'run': r.choice([4, 6, 8]), 'runs': runs,
+            'again': r.random() < 0.3,
             'entry': r.choice(['direct', 'add_timeline', 'add_timeline_paths']), 'other': r.random() < 0.4}
 
 
@@ -179,7 +180,19 @@ def run(spec):
         data = None
     exp = model(events, ts, spec.get('runs') or spec['run'], driven)
     stats = {}
-    if data is not None:
+    datas = [data]
+    if data is not None and spec.get('again'):
+        # the same process objects in a second engine (a fresh hierarchy): every event fires again, once
+        try:
+            e2 = Engine(processes=processes, steps=steps, topology=topology, initial_state=copy.deepcopy(init),
+                        display_info=False)
+            for iv in spec.get('runs') or [spec['run']]:
+                e2.update(iv)
+            datas.append(e2.emitter.get_data())
+        except Exception as ex:
+            V.check('trajectory', False, ('second engine with the same processes raised', type(ex).__name__, str(ex)[:200]))
+    for data in datas:
+      if data is not None:
         got = {}
         for t, row in data.items():
             if t not in exp:
@@ -192,8 +205,9 @@ def run(spec):
                 vals[var] = node.get(var[-1], 'MISSING') if isinstance(node, dict) else 'MISSING'
             got[t] = vals
         bad = [t for t in exp if got.get(t) != exp[t]]
+        which = 'second engine: ' if data is not datas[0] else ''
         V.check('trajectory', not bad,
-                lambda: ('driven variables differ from the timeline model at t=%s' % bad[0],
+                lambda: (which + 'driven variables differ from the timeline model at t=%s' % bad[0],
                          {'expected': {str(k): v for k, v in exp[bad[0]].items()},
                           'got': {str(k): v for k, v in (got.get(bad[0]) or {}).items()}},
                          'events', events, 'ts', ts))
